@@ -312,8 +312,9 @@ fn mode_c10(a: &Args) -> Value {
 
 #[derive(Debug, Clone, Copy, PartialEq)]
 enum Outcome {
-    /// Synchronised report: (|a| + b + c) / 1024 seconds with offset a/1024 (signed), dispersion b/1024, delay c/512; PHC bound.
-    Sync { a: i64, b: i64, c: i64, phc: i64 },
+    /// Synchronised report: (|a| + b + c) / 1024 seconds with offset a/1024 (signed), dispersion b/1024, delay c/512; PHC bound;
+    /// update interval 2^ivl_log2 s and a reference time `age_permille`/1000 of the way to the eight-interval limit.
+    Sync { a: i64, b: i64, c: i64, phc: i64, ivl_log2: u8, age_permille: u16 },
     Unsync,
     Stale,
     BadLeap,
@@ -348,12 +349,18 @@ impl Outcome {
         }
     }
 
-    fn message(&self, as_of: (i64, i64)) -> Message {
-        let now_ns = T0_REAL_S as i128 * NS;
+    /// `now_ns`: the virtual CLOCK_REALTIME at which the daemon will process the message.
+    fn message(&self, as_of: (i64, i64), now_ns: i128) -> Message {
         let dy = |n: i64| float_bits(n, 25 - 10); // n / 1024
         let rep = |leap: u16, age: i128, a: i64, b: i64, c: i64| Report { ref_id: 0, leap, ref_time_ns: now_ns - age, correction_bits: dy(a), delay_bits: float_bits(c, 25 - 9), dispersion_bits: dy(b), interval_bits: bits_of_f64(16.0) };
         match self {
-            Outcome::Sync { a, b, c, phc } => Message::ClockErrorBoundData((tracking_of(&rep(0, 2 * NS, *a, *b, *c)), *phc, ts(as_of.0, as_of.1))),
+            Outcome::Sync { a, b, c, phc, ivl_log2, age_permille } => {
+                let interval_s = 1i128 << *ivl_log2;
+                let age = 8 * interval_s * NS * *age_permille as i128 / 1000;
+                let mut r = rep(0, age, *a, *b, *c);
+                r.interval_bits = bits_of_f64(interval_s as f64);
+                Message::ClockErrorBoundData((tracking_of(&r), *phc, ts(as_of.0, as_of.1)))
+            }
             Outcome::Unsync => Message::ClockErrorBoundData((tracking_of(&rep(3, 0, 1024, 1024, 512)), 0, ts(as_of.0, as_of.1))),
             Outcome::Stale => Message::ClockErrorBoundData((tracking_of(&rep(1, 1000 * NS, 7, 9, 11)), 0, ts(as_of.0, as_of.1))),
             Outcome::BadLeap => Message::ClockErrorBoundData((tracking_of(&rep(9, 0, 7, 9, 11)), 0, ts(as_of.0, as_of.1))),
@@ -383,7 +390,8 @@ fn random_outcome(rng: &mut Rng, allow_sync: bool) -> Outcome {
         5 => Outcome::NoReply,
         6 => Outcome::PhcFailGrace,
         7 => Outcome::PhcFail,
-        _ => Outcome::Sync { a: rng.range(-2_000_000, 2_000_000), b: rng.range(0, 2_000_000), c: rng.range(0, 2_000_000), phc: *rng.pick(&[0i64, 0, 0, 5, 30_000]) },
+        _ => Outcome::Sync { a: rng.range(-2_000_000, 2_000_000), b: rng.range(0, 2_000_000), c: rng.range(0, 2_000_000), phc: *rng.pick(&[0i64, 0, 0, 5, 30_000]),
+                             ivl_log2: *rng.pick(&[0u8, 4, 4, 6, 10, 12]), age_permille: *rng.pick(&[0u16, 10, 500, 990, 1000]) },
     }
 }
 
@@ -398,7 +406,7 @@ fn run_sequence(a: &Args, prop: &str, seq: &[Outcome], drift: u32, previous: boo
     if previous {
         // A previous incarnation left a Synchronized record behind.
         let mut d0 = Daemon::start(&path, drift, true);
-        d0.send(Outcome::Sync { a: 100, b: 100, c: 100, phc: 0 }.message((20, 7)));
+        d0.send(Outcome::Sync { a: 100, b: 100, c: 100, phc: 0, ivl_log2: 4, age_permille: 10 }.message((20, 7), T0_REAL_S as i128 * NS));
         if !matches!(d0.wait_publication(), Wait::Published) {
             return Err("previous incarnation did not publish".into());
         }
@@ -411,11 +419,20 @@ fn run_sequence(a: &Args, prop: &str, seq: &[Outcome], drift: u32, previous: boo
     let mut have_sync = false;
     let (mut m_bound, mut m_as_of): (i64, (i64, i64)) = (0, (0, 0));
     let desc = || format!("[{}{}]", if previous { "restart; " } else { "" }, seq.iter().map(|o| o.name()).collect::<Vec<_>>().join(" "));
+    // Virtual time passes between outcomes (none, a poll period, around the 5 s grace period, long):
+    // what is published may depend on the outcomes only.
+    let mut grng = Rng::new(seq.len() as u64 * 7919 + drift as u64 + previous as u64);
+    let mut mono_ns: i128 = 50 * NS;
+    let mut real_ns: i128 = T0_REAL_S as i128 * NS;
     for (i, o) in seq.iter().enumerate() {
-        let as_of = (100 + i as i64, 1 + i as i64 * 1000);
+        let gap: i128 = *grng.pick(&[0i128, 1_000_000, NS, NS, 4_900_000_000, 5 * NS, 5 * NS + 1, 7 * NS, 100 * NS, 2000 * NS]);
+        mono_ns += gap;
+        real_ns += gap;
+        clock::fixed::set(((real_ns / NS) as i64, (real_ns % NS) as i64), ((mono_ns / NS) as i64, (mono_ns % NS) as i64));
+        let as_of = ((mono_ns / NS) as i64, (mono_ns % NS) as i64);
         let gen_before = generation_of(&path).unwrap_or(0);
         let n_before = d.log.lock().unwrap().len();
-        d.send(o.message(as_of));
+        d.send(o.message(as_of, real_ns));
         match d.wait_publication() {
             Wait::Published => {}
             Wait::NotPublished => {
@@ -431,7 +448,7 @@ fn run_sequence(a: &Args, prop: &str, seq: &[Outcome], drift: u32, previous: boo
         let log_len = d.log.lock().unwrap().len();
         let rec = *d.log.lock().unwrap().last().unwrap();
         let gen_after = generation_of(&path).unwrap_or(0);
-        if let Outcome::Sync { a: oa, b, c, phc } = o {
+        if let Outcome::Sync { a: oa, b, c, phc, .. } = o {
             have_sync = true;
             m_bound = expected_bound(*oa, *b, *c, *phc);
             m_as_of = as_of;
@@ -489,7 +506,7 @@ fn run_sequence(a: &Args, prop: &str, seq: &[Outcome], drift: u32, previous: boo
             for up in uptimes_ns.iter() {
                 clock::fixed::set((T0_REAL_S, 0), ((*up / NS) as i64, (*up % NS) as i64));
                 let st = clock::with_virtual(|| clock_bound_client::ClockBoundClient::new_with_path(path.to_str().unwrap()).and_then(|mut c| c.now()));
-                clock::fixed::set((T0_REAL_S, 0), (50, 0));
+                clock::fixed::set(((real_ns / NS) as i64, (real_ns % NS) as i64), ((mono_ns / NS) as i64, (mono_ns % NS) as i64));
                 *stats.entry("client-evaluations".to_string()).or_insert(0) += 1;
                 match st {
                     Ok(r) => {
@@ -530,7 +547,7 @@ fn mode_c08_c09(a: &Args, prop: &str) -> Value {
         }
         run_sequence(a, prop, &seq, drift, previous, &dir, violations, stats, &uptimes).err()
     };
-    let sync = Outcome::Sync { a: -1500, b: 300, c: 700, phc: 0 };
+    let sync = Outcome::Sync { a: -1500, b: 300, c: 700, phc: 0, ivl_log2: 4, age_permille: 16 };
     let mut all9: Vec<Outcome> = NONSYNC.to_vec();
     all9.push(sync);
     let mut inconclusive: Option<String> = None;
